@@ -29,6 +29,12 @@ func newtonRoot(cs *fw.Case) {
 	r := cs.R
 	n := r.Range(1, 5)
 	ps := NewPolySystem(r, n)
+	if r.Chance(0.35) {
+		// badly scaled system with irrational roots: the residual cannot get below
+		// epsilon at float resolution, the Newton step stalls
+		ps = NewSteepSystem(r, r.Range(1, 3))
+		n = ps.n
+	}
 	x0 := make([]float64, n)
 	for i := range x0 {
 		x0[i] = ps.R[i] + r.Uniform(-0.4, 0.4)
@@ -68,7 +74,9 @@ func newtonRoot(cs *fw.Case) {
 	t0 := fw.TickCount("newton.iter")
 	var xr ad.Vector
 	var err error
-	p := guarded(int64(maxIter)*1000+10000, func() { xr, err = newton.RunRoot(f, ad.NewDenseFloat64Vector(cloneF(x0)), args...) })
+	p := guarded(int64(maxIter)*1000+10000, func() {
+		xr, err = newton.RunRoot(reuseVectorResult(cs, n, f), ad.NewDenseFloat64Vector(cloneF(x0)), args...)
+	})
 	iters := int(fw.TickCount("newton.iter") - t0)
 	o := ru.outcome(p, err, false, iters >= maxIter)
 	cs.Cover("family:" + ps.Name())
@@ -112,6 +120,10 @@ func newtonCritMinOpt(cs *fw.Case, variant string, directed bool) {
 	if directed {
 		fams = []string{"kink"}
 	}
+	if !directed && r.Chance(0.2) {
+		fams = []string{"steep"} // gradient cannot get below epsilon at float resolution
+		n = r.Range(1, 3)
+	}
 	fam := pickFamily(r, n, fams)
 	n = fam.N()
 	radius := 1.5
@@ -130,7 +142,7 @@ func newtonCritMinOpt(cs *fw.Case, variant string, directed bool) {
 	target, _ := fam.Minimiser()
 	c := genCons(r, ckind, x0, target)
 	inf := infeasible(c, fam)
-	ru := &run{cs: cs, monitor: "newton", routine: "newton." + variant, opts: "hessianModification=" + hm, class: fam.Name()}
+	ru := &run{cs: cs, order: 2, monitor: "newton", routine: "newton." + variant, opts: "hessianModification=" + hm, class: fam.Name()}
 	ru.witness = map[string]any{"objective": fam.Describe(), "x0": x0, "epsilon": eps, "maxIterations": maxIter, "hessianModification": hm, "constraints": c.describe()}
 	evals, hooks := 0, 0
 	f := func(x ad.ConstVector) (ad.MagicScalar, error) {
@@ -172,9 +184,9 @@ func newtonCritMinOpt(cs *fw.Case, variant string, directed bool) {
 	var err error
 	p := guarded(int64(maxIter)*2000+20000, func() {
 		if variant == "RunCrit" {
-			xr, err = newton.RunCrit(f, ad.NewDenseFloat64Vector(cloneF(x0)), args...)
+			xr, err = newton.RunCrit(reuseResult(cs, f), ad.NewDenseFloat64Vector(cloneF(x0)), args...)
 		} else {
-			xr, err = newton.RunMin(f, ad.NewDenseFloat64Vector(cloneF(x0)), args...)
+			xr, err = newton.RunMin(reuseResult(cs, f), ad.NewDenseFloat64Vector(cloneF(x0)), args...)
 		}
 	})
 	iters := int(fw.TickCount("newton.iter") - t0)
